@@ -331,10 +331,10 @@ private theorem orderedB_sound (fuel : Nat) (es : List Edge) : ∀ (items : List
       not_true_eq_false, false_or, Bool.or_eq_false_iff, Bool.and_eq_true] at this
     rcases this with ⟨h3, h4⟩ | ⟨h3, h4⟩
     · rcases hc with hc | hc <;> simp_all
-    · refine ⟨reachB_sound _ _ _ h3, fun hs1 hs2 => ?_⟩
+    · refine ⟨reachFrom_sound (by simpa using h3), fun hs1 hs2 => ?_⟩
       rcases h4 with h4 | h4
       · rcases h4 with h4 | h4 <;> simp_all
-      · exact reachB_sound _ _ _ h4
+      · exact reachFrom_sound (by simpa using h4)
 
 private theorem frameJustB_sound {b : Block} {t : Bool} {e : Edge} (h : frameJustB b t e = true) :
     FrameJust b t e := by
@@ -367,10 +367,10 @@ theorem C24_checker_sound (b : Block) (es : List Edge) (h : frameSpecB b es = tr
       Bool.not_eq_true'] at h2
     rcases h2 p hp with h | ⟨h, h'⟩
     · exact absurd h hne
-    · refine ⟨reachB_sound _ _ _ h, fun hs => ?_⟩
+    · refine ⟨reachFrom_sound (by simpa using h), fun hs => ?_⟩
       rcases h' with h' | h'
       · rw [hs] at h'; cases h'
-      · exact reachB_sound _ _ _ h'
+      · exact reachFrom_sound (by simpa using h')
   · intro e he hl
     simp only [edgesJustB, List.all_eq_true] at h3
     have := h3 e he
